@@ -491,3 +491,18 @@ Global Hint Resolve gg_select_definition : gen.
 (* ------------------------------------------------------------------ document.rs and the type entry *)
 Lemma gg_document C (H : pcfg_ok C) fuel : specR C (g_document fuel).
 Proof. unfold g_document. gfull. Qed.
+
+(* configurations in which a panic is acceptable (partial correctness): post speaks about returns only *)
+Lemma post_partial C {A} (P Q : pstate -> Prop) (m : PM A) :
+  cPanicOk C ->
+  (forall s, P s -> forall a s', m s = POk (a, s') -> Q s' /\ cRel C s s') -> post C P Q m.
+Proof.
+  intros Hp Hm s Hs. destruct (m s) as [[a s']| |] eqn:E; auto. eapply Hm; eauto.
+Qed.
+Lemma post_returns C {A} (P Q : pstate -> Prop) (m : PM A) :
+  post C P Q m -> forall s, P s -> forall a s', m s = POk (a, s') -> Q s' /\ cRel C s s'.
+Proof. intros Hm s Hs a s' E. specialize (Hm s Hs). rewrite E in Hm. exact Hm. Qed.
+
+Lemma bind_ok {A B} (m : PM A) (f : A -> PM B) s r s' :
+  p_bind m f s = POk (r, s') -> exists a s1, m s = POk (a, s1) /\ f a s1 = POk (r, s').
+Proof. unfold p_bind. destruct (m s) as [[a s1]| |]; try discriminate. eauto. Qed.
